@@ -316,4 +316,46 @@ theorem runFrom_amp (cfg : Cfg) :
       simp only [hr0, Option.toList_some, List.singleton_append, clampedProduct, ← hamp]
       exact ih'
 
+
+/-! ### the stub behaviour alphabet used by the evaluated table (Gen/CascadeTable) -/
+
+/-- stage `i` of a pipeline described by (checkpoint, processor, handler, required): the same stub callbacks the
+    extractor installs in the real cascade (processor `x ↦ 10x + i + 1`, handler `7000 + i`, factor 2) -/
+def stubStage (i : Nat) (d : Nat × Nat × Nat × Bool) : Stage Nat :=
+  { checkpoint := match d.1 with
+      | 1 => some fun _ => .ok true
+      | 2 => some fun _ => .ok false
+      | 3 => some fun _ => .raise
+      | _ => none
+    processor := fun x => if d.2.1 = 0 then .ok (x * 10 + i + 1) else .raise
+    onError := match d.2.2.1 with
+      | 1 => some fun _ => .ok (7000 + i)
+      | 2 => some fun _ => .raise
+      | _ => none
+    required := d.2.2.2
+    amp := 2 }
+
+def stubStages : Nat → List (Nat × Nat × Nat × Bool) → List (Stage Nat)
+  | _, [] => []
+  | i, d :: ds => stubStage i d :: stubStages (i + 1) ds
+
+def statusCode : Status → Nat
+  | .completed => 0 | .failed => 1 | .skipped => 2 | .blocked => 3
+
+def evCode : Ev Nat → Nat × Nat × Nat × Nat
+  | .cp i s (.ok true) => (0, i, s, 1)
+  | .cp i s (.ok false) => (0, i, s, 0)
+  | .cp i s .raise => (0, i, s, 2)
+  | .proc i s => (1, i, s, 0)
+  | .eh i => (2, i, 0, 0)
+
+/-- does the model reproduce one evaluated row? -/
+def rowAgrees (r : Bool × List (Nat × Nat × Nat × Bool) × Bool × Option Nat × Nat × Option Nat × List (Nat × Nat) ×
+    List (Nat × Nat × Nat × Nat) × Nat) : Bool :=
+  let res := result ⟨r.1, 4⟩ (stubStages 0 r.2.1) 1
+  res.success == r.2.2.1 && res.final == r.2.2.2.1 && res.completed == r.2.2.2.2.1 &&
+  res.blockedAt == r.2.2.2.2.2.1 &&
+  res.results.map (fun x => (x.idx, statusCode x.status)) == r.2.2.2.2.2.2.1 &&
+  res.log.map evCode == r.2.2.2.2.2.2.2.1 && res.amplification == (r.2.2.2.2.2.2.2.2 : Rat)
+
 end Operon.Cascade
